@@ -241,6 +241,7 @@ func c08exec(c *vt.Ctx, r c08run) (prof c08profile) {
 			old := endBase
 			endBase = func() { old(); cancel() }
 		}
+		rig.Srv.Stop() // the server has exited: nothing to stop, and nothing to remember
 		rig.Peer, rig.End = vchan.NewPair("cli", "srv", rig.Mon)
 		rig.End.PipeLike = r.pipeLike
 		rig.Srv.Start(rig.Chan())
@@ -270,11 +271,47 @@ func c08exec(c *vt.Ctx, r c08run) (prof c08profile) {
 				c.Failf("after the restart the handler of a fresh call was handed a context that had already ended: %s", e.Info)
 			}
 		}
-		if st2, ok := rig.Finish(); !ok {
+		if vt.Hash64(fmt.Sprint("second", r.sc.name, r.cause, r.post, r.pipeLike))%2 == 0 {
+			// The second session is ended by Stop - and it is a session like the first one,
+			// whatever was called on the stopped server in between (a Stop with nothing to
+			// stop): the call in flight is cancelled, WaitStatus reports Stopped, the channel
+			// is closed exactly once.
+			rig.H.Rearm()
+			rig.Send(peer.Req(`"held"`, "g", "held2"))
+			rig.Settle()
+			if rig.Log.Count("h.enter", "held2") != 1 || rig.Log.Count("h.exit", "held2") != 0 {
+				c.Failf("second session: a gated call is not running (entered %d, returned %d)", rig.Log.Count("h.enter", "held2"), rig.Log.Count("h.exit", "held2"))
+			}
+			rig.Srv.Stop()
+			st2, ok := rig.AwaitStatus()
+			if !ok && !r.pipeLike {
+				// a channel whose Close does not wake its reader: the reader leaves when the peer hangs up
+				rig.Peer.CloseQuiet()
+				st2, ok = rig.AwaitStatus()
+			}
+			switch {
+			case !ok:
+				c.Failf("second session: WaitStatus has not returned at quiescence after Stop (a call was in flight)")
+				rig.H.ReleaseAll()
+				rig.Peer.CloseQuiet()
+				rig.Settle()
+			case !st2.Stopped || st2.Err != nil || st2.Closed:
+				c.Failf("second session: exit status %+v after Stop, want Stopped", st2)
+			}
+			if es := rig.Log.Find("h.exit", "held2"); len(es) != 1 || strings.Contains(es[0].Info, "ctxerr=<nil>") {
+				c.Failf("second session: the call in flight at Stop did not leave with a cancelled context: %v", es)
+			}
+			rig.Peer.CloseQuiet()
+			rig.Settle()
+			c.Count("second_sessions_ended_by_stop", 1)
+		} else if st2, ok := rig.Finish(); !ok {
 			c.Failf("restarted server did not exit after its peer closed")
 			rig.Srv.Stop()
 		} else if !st2.Closed || st2.Err != nil || st2.Stopped {
 			c.Failf("restarted server exit status %+v, want Closed", st2)
+		}
+		if _, _, closes := rig.End.Counts(); closes != 1 {
+			c.Failf("second session: the server closed its channel %d times, want exactly 1", closes)
 		}
 		if got := jrpc2.ServerMetrics().Get("servers_active").String(); got != active0 {
 			c.Failf("servers_active is %s after the second shutdown, was %s before start", got, active0)
